@@ -16,7 +16,13 @@ let cls (o : outcome) : string =
 let handle (w : string list) : string =
   match w with
   | ["H"; rp; media; facts; kind; id; topic; tuid; what; gbits; sbits; seq; event; payload; unsub; user; scheme; tmpscheme;
-     hiver; hiverempty; obo; obouid; att; schemes] ->
+     hiver; hiverempty; obo; obouid; att; schemes; tfacts] ->
+    (* tfacts (what the default-access site reads): category of the loaded topic, perUser entry of the session's user
+       (exists, deleted, modeWant has J, sharer), set.sub.user (0 absent, 1 unparsable, 2 another user, 3 self), that user
+       has no live entry *)
+    let tf i = tfacts.[i] = '1' in
+    let cat = match tfacts.[0] with '0' -> CatMe | '1' -> CatFnd | '2' -> CatP2P | '4' -> CatSys | _ -> CatGrp in
+    let tk = tfacts.[5] in
     let f i = facts.[i] = '1' in
     let uid = if f 1 then n_of_int 5 else N0 in
     let g i = gbits.[i] = '1' and s i = sbits.[i] = '1' in
@@ -24,6 +30,8 @@ let handle (w : string list) : string =
               m_topic_uid = (match tuid with "1" -> n_of_int 5 | "2" -> n_of_int 6 | _ -> N0);
               m_what = str what; m_get_desc = g 0; m_get_sub = g 1; m_get_data = g 2; m_get_rest = g 3;
               m_set_desc = s 0; m_set_private = s 1; m_set_sub = s 2; m_set_mode = s 3; m_set_tags = s 4; m_set_cred = s 5;
+              m_set_joiner = false; m_set_user = (if tk = '0' then [] else [n_of_int 117]);
+              m_set_user_uid = (match tk with '2' -> n_of_int 6 | '3' -> n_of_int 5 | _ -> N0);
               m_seq = z_of_string seq; m_event = str event; m_payload = b payload; m_unsub = b unsub; m_user = str user;
               m_scheme = str scheme; m_tmpscheme = str tmpscheme; m_hi_ver = n_of_string hiver; m_hi_ver_empty = b hiverempty;
               m_obo = str obo; m_obo_uid = (if obouid = "0" then N0 else n_of_int 6); m_attachments = b att } in
@@ -34,7 +42,9 @@ let handle (w : string list) : string =
     List.iter (fun (rej, serr) ->
       let st = { s_terminating = false; s_ver = (if f 0 then n_of_int 22 else N0); s_uid = uid; s_root = f 2;
                  s_subs = (if f 3 then [name] else []); w_partitioned = false;
-                 w_loaded = (if f 4 then [{ t_name = name; t_inactive = false; t_owner = N0; t_p2p = false; t_subcount = n_of_int 2; t_members = [uid] }] else []);
+                 w_loaded = (if f 4 then [{ t_name = name; t_inactive = false; t_owner = N0; t_p2p = false; t_subcount = n_of_int 2; t_members = [uid]; t_cat = cat;
+                                           t_peruser = (if tf 1 then [(uid, { pu_deleted = tf 2; pu_want_joiner = tf 3; pu_sharer = tf 4 })] else [])
+                                                       @ (if tk = '2' && not (tf 6) then [(n_of_int 6, { pu_deleted = false; pu_want_joiner = true; pu_sharer = false })] else []) }] else []);
                  w_rows = (if f 5 then [(row_name m name, uid)] else []);
                  o_code = n_of_int 999; o_reject = rej; o_store_err = serr; o_queue_full = false; o_fresh = n_of_int 9 } in
       let o = cls (handle (if rp = "1" then all_repairs else no_repairs) c st (Decoded m)) in
